@@ -169,6 +169,12 @@ def _validation_summary(repo, qual, skip):
     return out
 
 
+def _load(t):
+    """Copy of a store-context target as a load-context expression."""
+    t2 = ast.parse(ast.unparse(t), mode='eval').body
+    return ast.copy_location(t2, t)
+
+
 def _ways(stmts, in_loop=False):
     """(set of ways the block can be left early, may fall through) - syntactic."""
     ks = set()
@@ -699,6 +705,26 @@ class FuncAnalysis:
 
     def _s_AugAssign(self, s):
         op = _BINOPS.get(type(s.op), '?')
+        if isinstance(s.op, ast.Add) and isinstance(s.target, (ast.Attribute, ast.Subscript)) \
+                and isinstance(s.value, (ast.List, ast.ListComp, ast.Name)):
+            # xs += [e]  /  xs += list_valued  on a list object is xs.extend(...) (append for one element)
+            n0, cnt0, new0 = len(self.events), self._counters(), getattr(self, '_n_new', 0)
+            v0 = self.ev(s.value)
+
+            def listy(x):
+                return x[0] in ('list',) or (x[0] == 'comp' and x[1] == 'list') or (x[0] == 'call' and x[1] in (T.G('list'), T.G('$new_list'))) \
+                    or (x[0] == 'call' and x[1] == T.G('$obj') and x[2][0][0] == 'list') or (x[0] == 'ite' and listy(x[2]) and listy(x[3]))
+            del self.events[n0:]
+            self._restore_counters(cnt0)
+            self._n_new = new0
+            if listy(v0):
+                call = ast.Call(ast.Attribute(_load(s.target), 'extend', ast.Load()), [s.value], [])
+                st = ast.Expr(call)
+                for x in ast.walk(st):
+                    if not hasattr(x, 'lineno'):
+                        ast.copy_location(x, s)
+                ast.fix_missing_locations(st)
+                return self._s_Expr(st)
         v = self.ev(s.value)
         tgt = s.target
         if isinstance(tgt, ast.Name):
@@ -1131,7 +1157,13 @@ class FuncAnalysis:
             hname = ast.unparse(h.type) if h.type is not None else ''
             self._trys.append((types, 'handler', tid))
             self._guards.append((('unk', 'except:' + hname, tid), True, 'if'))
+            # `try: x = a[k] if c else None` can only fail where a[k] is evaluated, i.e. under c
+            dom = self._raise_domain(s.body)
+            if dom is not None:
+                self._guards.append((dom, True, 'if'))
             st_h = self._block(h.body)
+            if dom is not None:
+                self._guards.pop()
             self._guards.pop()
             self._trys.pop()
             results.append((self.env, st_h, hname))
@@ -1154,6 +1186,27 @@ class FuncAnalysis:
         return status
 
     _s_TryStar = _s_Try
+
+    def _raise_domain(self, body):
+        """Condition under which the only expression of a one-statement try body that can raise is
+        evaluated (x = E if c else <name or constant>), else None."""
+        if len(body) != 1 or not isinstance(body[0], ast.Assign) or not isinstance(body[0].value, ast.IfExp):
+            return None
+        e = body[0].value
+
+        def inert(n):
+            return isinstance(n, (ast.Constant, ast.Name))
+        n0, cnt0, new0 = len(self.events), self._counters(), getattr(self, '_n_new', 0)
+        try:
+            if inert(e.orelse) and not inert(e.body):
+                return T.as_cond(self.ev(e.test))
+            if inert(e.body) and not inert(e.orelse):
+                return T.not_(T.as_cond(self.ev(e.test)))
+        finally:
+            del self.events[n0:]
+            self._restore_counters(cnt0)
+            self._n_new = new0
+        return None
 
     def _s_Match(self, s):
         self.unrecognised.append((s.lineno, 'match'))
